@@ -16,24 +16,6 @@ def AllWF (roas : List Roa) : Prop := ∀ r ∈ roas, r.pfx.WF
 
 /-! ## Validation of one announcement -/
 
-private theorem find_none_iff (roas : List Roa) (a : Ann) :
-    (covering roas a.pfx).find? (fun r => r.matches a) = none ↔
-      ∀ r ∈ roas, r.matches a = false := by
-  have h := find_covering roas a
-  constructor
-  · intro hn r hr
-    rw [hn] at h
-    have : roas.any (fun r => r.matches a) = false := by rw [← h]; rfl
-    rw [List.any_eq_false] at this
-    simpa using this r hr
-  · intro hall
-    have : roas.any (fun r => r.matches a) = false := by
-      rw [List.any_eq_false]; intro r hr; simp [hall r hr]
-    rw [this] at h
-    cases hf : (covering roas a.pfx).find? (fun r => r.matches a) with
-    | none => rfl
-    | some r => rw [hf] at h; cases h
-
 /-- An announcement is reported valid exactly when some configured ROA covers its prefix
 with the same origin and a sufficient maximum length. -/
 theorem valid_iff (roas : List Roa) (a : Ann) :
@@ -425,46 +407,6 @@ theorem validBy_iff_rfc6811 (roas : List Roa) (a : Ann) (hwf : AllWF roas) :
   unfold ValidBy
   rw [← isValid_iff]
   cases (validate roas a).validity <;> simp [Validity.isValid, Validity.toState]
-
-private theorem toEntry_subject (v : Validated) : v.toEntry.subject = .inr v.ann := by
-  unfold Validated.toEntry; split <;> rfl
-
-private theorem toEntry_authorizes (v : Validated) : v.toEntry.authorizes = [] := by
-  unfold Validated.toEntry; split <;> rfl
-
-/-- The shape of a report when announcement data is loaded. -/
-private theorem analyse_shape (i : AnalyseInput) (s : List Ann) (entries : List Entry)
-    (hseen : i.seen = some s) (h : analyse i = some entries) :
-    ∃ roaEntries,
-      allSome (i.roasHeld.map (fun r => categoriseRoa r i.validated i.roasHeld)) = some roaEntries ∧
-      entries = i.roasNotHeld.map (fun r => ({ subject := .inl r, state := .roaNotHeld } : Entry)) ++
-        roaEntries ++ i.validated.map (·.toEntry) := by
-  unfold analyse at h
-  rw [hseen] at h
-  simp only at h
-  split at h
-  · cases h
-  · rename_i roaEntries hre
-    simp only [Option.some.injEq] at h
-    exact ⟨roaEntries, hre, h.symm⟩
-
-/-- An entry of the report about a ROA, other than "not held", is the categorisation of a
-held ROA. -/
-private theorem roa_entry_origin (i : AnalyseInput) (s : List Ann) (entries : List Entry)
-    (hseen : i.seen = some s) (h : analyse i = some entries) (e : Entry) (he : e ∈ entries)
-    (hne : e.state ≠ .roaNotHeld ∨ e.authorizes ≠ []) (hsub : ∃ rc, e.subject = .inl rc) :
-    ∃ rc ∈ i.roasHeld, categoriseRoa rc i.validated i.roasHeld = some e := by
-  obtain ⟨roaEntries, hre, rfl⟩ := analyse_shape i s entries hseen h
-  simp only [List.mem_append, List.mem_map] at he
-  rcases he with (⟨r, _, rfl⟩ | he) | ⟨v, _, rfl⟩
-  · rcases hne with hne | hne <;> exact absurd rfl hne
-  · have := allSome_eq_some hre
-    have hm : some e ∈ roaEntries.map some := List.mem_map.mpr ⟨e, he, rfl⟩
-    rw [← this] at hm
-    obtain ⟨rc, hrc, heq⟩ := List.mem_map.mp hm
-    exact ⟨rc, hrc, heq⟩
-  · obtain ⟨rc, hrc⟩ := hsub
-    rw [toEntry_subject] at hrc; cases hrc
 
 /-- **Every single suggestion is safe.**  With announcement data loaded, for every observed
 announcement (origin not AS0) that is valid under the held ROAs:
